@@ -78,9 +78,16 @@ def oracle_cases(tier, rng):
             for J in (1, 2):
                 for (H, W) in [(2 * Lc + 1, 2 * Lr + 2), (4 * Lc, 4 * Lr + 1), (16, 23)]:
                     yield dict(kind='2d', wave=wc, wave_row=wr, mode=mode, J=J, H=H, W=W, nb=1, C=2, axes=[(H, Lc), (W, Lr)], seed=int(rng.integers(1 << 30)))
+    # many channels / batch items: a path chosen by the channel or batch count must compute the same transform
+    for mode in MODES5:
+        for (nb, C) in ((1, 70), (9, 2)):
+            yield dict(kind='1d', wave='db2', mode=mode, J=2, N=19, nb=nb, C=C, axes=[(19, 4)], seed=int(rng.integers(1 << 30)))
+            yield dict(kind='2d', wave='db2', mode=mode, J=2, H=10, W=13, nb=nb, C=C, axes=[(10, 4), (13, 4)], seed=int(rng.integers(1 << 30)))
 
 
 def strat_key(cfg):
+    if cfg['nb'] * cfg['C'] > 8:
+        return '%s/%s/many%dx%d' % (cfg['kind'], cfg['mode'], cfg['nb'], cfg['C'])
     L = cfg['axes'][0][1]
     n = cfg['axes'][0][0]
     return '%s%s/%s/J%d/%s/%s' % (cfg['kind'], '-mixed' if cfg.get('wave_row') else '', cfg['mode'], cfg['J'], 'short' if n < L else 'long', 'odd' if n % 2 else 'even')
